@@ -407,6 +407,17 @@ var solvers = []solverSpec{
 
 var outDir = "/verif/out"
 
+// repoRoot and outRoot can be redirected (GOVC_REPO, GOVC_OUT) by the seeded-change tooling, which runs the checks
+// against scratch worktrees; the registered commands never set them.
+var repoRoot, outRoot = envOr("GOVC_REPO", "/repo"), envOr("GOVC_OUT", "/verif/out")
+
+func envOr(k, d string) string {
+	if v := os.Getenv(k); v != "" {
+		return v
+	}
+	return d
+}
+
 // Solve races the installed solvers on the script (which must end with check-sat; get-model is appended).
 func Solve(name string, script string, timeoutS int, wantModel bool) SolveResult {
 	solverSem <- struct{}{}
